@@ -120,11 +120,9 @@ static int pool_init(ABT_pool pool, ABT_pool_config config)
     abt_errno = ABTU_malloc(sizeof(data_t), (void **)&p_data);
     ABTI_CHECK_ERROR(abt_errno);
 
-    access = p_pool->access;
-    if (access != ABT_POOL_ACCESS_PRIV) {
-        /* Initialize the mutex */
-        ABTD_spinlock_clear(&p_data->mutex);
-    }
+    /* Initialize the mutex.  Even a private pool needs it: pop_wait() and
+     * pop_timedwait() take it regardless of the access mode. */
+    ABTD_spinlock_clear(&p_data->mutex);
     thread_queue_init(&p_data->queue);
 
     p_pool->data = p_data;
